@@ -150,7 +150,23 @@ class SLen(Sym):
         self.coll = coll
         self.t = None
 
+    def card(self):
+        """Cardinality as an uninterpreted function of the membership array (exact on finite
+        instances: pyvc.finite expands it to a sum over the universe)."""
+        arr = self.coll.arr
+        f = z3.Function("card!" + self.coll.elem.kind, arr.sort(), z3.IntSort())
+        return f(arr)
+
     def cmp(self, it, op, other):
+        if isinstance(other, SLen):
+            a, b = self.card(), other.card()
+            it.ctx.assume(z3.And(a >= 0, b >= 0))
+            x = z3.Const("cd!" + self.coll.elem.kind, self.coll.elem.sort)
+            if other.coll.elem.kind == self.coll.elem.kind:
+                it.ctx.assume(z3.Implies(z3.ForAll([x], z3.Select(self.coll.arr, x) == z3.Select(other.coll.arr, x)), a == b))
+            f = {"==": lambda p, q: p == q, "!=": lambda p, q: p != q, "<": lambda p, q: p < q,
+                 "<=": lambda p, q: p <= q, ">": lambda p, q: p > q, ">=": lambda p, q: p >= q}[op]
+            return lift(f(a, b))
         if other != 0 or isinstance(other, bool):
             raise Unsupported("len(symbolic collection) compared with a non-zero value")
         ne = self.coll.nonempty(it)
@@ -494,9 +510,29 @@ class STup(Sym):
         return self.gen.coll.nonempty(it)
 
 
-class SRange(Sym):
-    def __init__(self, it, *a):
-        raise Unsupported("range() with symbolic bounds")
+class IntElem(Elem):
+    def __init__(self):
+        super().__init__(z3.IntSort(), "int")
+
+    def wrap(self, t):
+        return lift(t)
+
+    def unwrap(self, v):
+        return to_z3(v)
+
+
+def SRange(it, *a):
+    """range(lo, hi) with symbolic bounds and step 1, as the collection {k | lo <= k < hi}."""
+    if len(a) == 1:
+        lo, hi = z3.IntVal(0), to_z3(a[0])
+    elif len(a) == 2:
+        lo, hi = to_z3(a[0]), to_z3(a[1])
+    else:
+        raise Unsupported("range() with symbolic bounds and an explicit step")
+    if not (z3.is_int(lo) and z3.is_int(hi)):
+        raise Unsupported("range() over non-integer symbolic bounds")
+    k = z3.Int("rg!k")
+    return SColl(IntElem(), z3.Lambda([k], z3.And(lo <= k, k < hi)))
 
 
 # ----------------------------------------------------------------------------------------
